@@ -481,7 +481,8 @@ def run_query(ctx, db, data, qd, stats, nontrivial, per_op):
                 stats['unsupported'] += 1
             if matches(data, exp, act):
                 stats['compared'] += 1
-                if len(steps) >= 2 and qd['rlen'] >= 2 and stats['sampled-' + t['op']] == 0 and exp['k'] != 'unsupported':
+                if len(steps) >= 2 and qd['rlen'] >= 3 and stats['sampled-' + t['op']] == 0 and exp['k'] != 'unsupported' \
+                        and {st['op'] for st in steps} & {'order', 'sub'} and {st['op'] for st in steps} & {'filter', 'where', 'kw', 'sub'}:
                     stats['sampled-' + t['op']] = 1
                     ctx.sample({'chain': show_steps(proj, steps, t), 'expected': show_exp(data, exp), 'pony': show_act(act)}, limit=20)
                 continue
